@@ -40,6 +40,9 @@ type Job struct {
 	// Stubs: functions of /repo replaced for this job. "str:X" returns the string X,
 	// "err:X" returns errors.New(X). Every stub is listed in the evidence.
 	Stubs map[string]string
+	// Config: "" = the shipped test configuration (/repo/test/.ti-config); "core" = the
+	// subset of its files listed in coreConfigFiles (stated as part of the bound).
+	Config string
 }
 
 type JobResult struct {
@@ -62,6 +65,7 @@ type JobResult struct {
 	Decisions    int64
 	TwinViolated int
 	Truncated    bool
+	MaxSteps     int
 }
 
 var overlayDir = "/verif/harness/overlay"
@@ -113,12 +117,13 @@ type worker struct {
 	mark   int
 }
 
-func newWorker(prog *ssa.Program, pkgPath string, solverBin []string) (*worker, error) {
+func newWorker(prog *ssa.Program, pkgPath string, solverBin []string, fsRoot string) (*worker, error) {
 	solver, err := NewSolver(solverBin[0], solverBin[1:]...)
 	if err != nil {
 		return nil, err
 	}
 	e := NewEngine(prog, solver)
+	e.fsRoot = fsRoot
 	e.resetFacts()
 	e.asserts = map[string]int{}
 	e.witnesses = map[string]Value{}
@@ -158,6 +163,8 @@ func (w *worker) resetPath(job *Job, pre []int8) {
 	e.outV = nil
 	e.marks = nil
 	e.stack = e.stack[:0]
+	e.envArena = e.envArena[:0]
+	e.visArena = e.visArena[:0]
 	e.curClass = nil
 	e.witnesses = map[string]Value{}
 	e.witnessOrder = nil
@@ -208,6 +215,9 @@ func (w *worker) runOnePath(job *Job, fn *ssa.Function, res *JobResult) {
 	}()
 	e.callFunction(nil, fn, []Value{int64(job.N)}, nil)
 	res.EndKinds["completed"]++
+	if e.steps > e.MaxStepsCompleted {
+		e.MaxStepsCompleted = e.steps
+	}
 }
 
 // RunJob explores all feasible paths of the job's entry with nw workers.
@@ -240,7 +250,7 @@ func RunJob(prog *ssa.Program, job *Job, nw int, twin bool, solverBin []string) 
 		wg.Add(1)
 		go func(i int) {
 			defer wg.Done()
-			w, err := newWorker(prog, job.Pkg, solverBin)
+			w, err := newWorker(prog, job.Pkg, solverBin, configRoot(job.Config))
 			if err != nil {
 				mu.Lock()
 				if firstErr == nil {
@@ -252,6 +262,12 @@ func RunJob(prog *ssa.Program, job *Job, nw int, twin bool, solverBin []string) 
 			}
 			workers[i] = w
 			w.e.twin = twin
+			w.e.publish = func(alt []int8) {
+				mu.Lock()
+				pending = append(pending, alt)
+				mu.Unlock()
+				cond.Signal()
+			}
 			res := &JobResult{Job: job, EndKinds: map[string]int{}, EndMsgs: map[string]int{}}
 			results[i] = res
 			for {
@@ -274,6 +290,9 @@ func RunJob(prog *ssa.Program, job *Job, nw int, twin bool, solverBin []string) 
 				w.e.Paths++
 				w.runOnePath(job, fn, res)
 				w.e.TotalSteps += int64(w.e.steps)
+				if job.Name == "src" {
+					lastOut = strings.Join(w.e.out, "")
+				}
 				res.Decisions += int64(len(w.e.decisions))
 
 				mu.Lock()
@@ -311,6 +330,9 @@ func RunJob(prog *ssa.Program, job *Job, nw int, twin bool, solverBin []string) 
 		agg.Paths += w.e.Paths
 		agg.Steps += w.e.TotalSteps
 		agg.Folded += w.e.SimplifiedAway
+		if w.e.MaxStepsCompleted > agg.MaxSteps {
+			agg.MaxSteps = w.e.MaxStepsCompleted
+		}
 		agg.Violations = append(agg.Violations, w.e.Violations...)
 		for k, v := range w.e.reached {
 			agg.Reached[k] += v
@@ -350,4 +372,41 @@ func (r *JobResult) Inconclusive() int {
 		}
 	}
 	return n
+}
+
+// coreConfigFiles: the "core" configuration = the shipped test configuration without the
+// large device / ActiveRecord / test-only files. Used by the program-level jobs whose
+// behaviour does not depend on those classes; always stated in the job's bound.
+var coreConfigFiles = []string{"array.json", "bool.json", "class.json", "enumerable.json", "false.json", "float.json", "hash.json",
+	"identifier.json", "integer.json", "kernel.json", "nil.json", "object.json", "proc.json", "range.json", "runtime_error.json",
+	"string.json", "symbol.json", "true.json", "untyped.json"}
+
+var configRoots = map[string]string{}
+
+func configRoot(name string) string {
+	if r, ok := configRoots[name]; ok {
+		return r
+	}
+	return configRoots[""]
+}
+
+// setupConfigRoots creates, under dir, one root directory per configuration variant, each
+// holding a .ti-config directory of symlinks into /repo/test/.ti-config.
+func setupConfigRoots(dir string) error {
+	full := filepath.Join(dir, "cfg-full")
+	os.MkdirAll(full, 0o755)
+	if err := os.Symlink(filepath.Join(repoDir, "test", ".ti-config"), filepath.Join(full, ".ti-config")); err != nil {
+		return err
+	}
+	configRoots[""] = full
+	core := filepath.Join(dir, "cfg-core")
+	os.MkdirAll(filepath.Join(core, ".ti-config"), 0o755)
+	for _, f := range coreConfigFiles {
+		src := filepath.Join(repoDir, "test", ".ti-config", f)
+		if _, err := os.Stat(src); err == nil {
+			os.Symlink(src, filepath.Join(core, ".ti-config", f))
+		}
+	}
+	configRoots["core"] = core
+	return nil
 }
